@@ -180,3 +180,46 @@ Proof.
     + intros ->. destruct (Z.eq_dec q 0) as [|Hne]; [assumption|]. exfalso.
       specialize (H3 0). rewrite Z.mul_0_r in H3. simpl in H3. rewrite Z.pow_1_l in H3 by lia. lia.
 Qed.
+
+(* ------------------------------------------------------------------ uniqueness of the nearest root; checked tables *)
+Lemma pow_lt_cancel a b d : 0 <= a -> 0 <= b -> 1 <= d -> a ^ d < b ^ d -> a < b.
+Proof.
+  intros Ha Hb Hd H. destruct (Z_lt_le_dec a b) as [|Hle]; [assumption|]. exfalso.
+  assert (b ^ d <= a ^ d) by (apply Z.pow_le_mono_l; lia). lia.
+Qed.
+
+Lemma iroot_round_unique n d r : 0 <= n -> 1 <= d -> 0 <= r ->
+  2 ^ d * n < (2 * r + 1) ^ d -> (r = 0 \/ (2 * r - 1) ^ d <= 2 ^ d * n) -> iroot_round n d = r.
+Proof.
+  intros Hn Hd Hr Hup Hlow. destruct (iroot_round_spec n d Hn Hd) as [Q0 [Qup [Qlow Qz]]]. cbv zeta in *.
+  set (q := iroot_round n d) in *.
+  assert (Hqr : q <= r).
+  { destruct (Z_le_gt_dec q r) as [|Hgt]; [assumption|]. exfalso.
+    assert (H1 : (2 * q - 1) ^ d <= 2 ^ d * n) by (apply Qlow; lia).
+    assert ((2 * r + 1) ^ d <= (2 * q - 1) ^ d) by (apply Z.pow_le_mono_l; lia). lia. }
+  assert (Hrq : r <= q).
+  { destruct (Z_le_gt_dec r q) as [|Hgt]; [assumption|]. exfalso.
+    destruct Hlow as [->|Hlow]; [lia|].
+    assert ((2 * q + 1) ^ d <= (2 * r - 1) ^ d) by (apply Z.pow_le_mono_l; lia). lia. }
+  lia.
+Qed.
+
+Lemma iroot_round_dim1 n : 0 <= n -> iroot_round n 1 = n.
+Proof. intros Hn. apply iroot_round_unique; rewrite ?Z.pow_1_r; try lia. Qed.
+
+(* a table accepted by table_ok gives iroot_round on the whole covered interval *)
+Lemma table_ok_sound d limit : 1 <= d -> forall l lo, 0 <= lo -> table_ok d lo limit l = true ->
+  forall n, lo <= n <= limit -> table_lookup lo l n = Some (iroot_round n d).
+Proof.
+  intros Hd. induction l as [|[hi r] t IH]; intros lo Hlo H n Hn; cbn [table_ok table_lookup] in *.
+  - apply Z.ltb_lt in H. lia.
+  - repeat (apply andb_true_iff in H as [H ?]).
+    apply Z.leb_le in H. rename H0 into Ht, H1 into Hlow, H2 into Hup, H3 into Hr, H4 into Hhi.
+    apply Z.leb_le in Hhi. apply Z.leb_le in Hr. apply Z.ltb_lt in Hup.
+    destruct (n <=? hi) eqn:E.
+    + apply Z.leb_le in E. destruct (lo <=? n) eqn:E2; [|apply Z.leb_gt in E2; lia]. f_equal. symmetry.
+      assert (P : 0 < 2 ^ d) by (apply Z.pow_pos_nonneg; lia).
+      apply iroot_round_unique; try lia; [nia|].
+      apply orb_true_iff in Hlow as [Hz|Hl]; [left; now apply Z.eqb_eq in Hz | right; apply Z.leb_le in Hl; nia].
+    + apply Z.leb_gt in E. apply IH; [lia | assumption | lia].
+Qed.
